@@ -8,12 +8,18 @@
   c15.h264  <avc> <npre> <payload>* <nframe> <payload>*
             => panic | ok <n> <res>* <n> <res>*
   c08.h264  <n> <disable>* <calls> => <n> PayObs*      (DisableStapA per call)
+  c10.rtfork   <disable> <avc> <fork> <ncalls> (<lane> <mtu> <bare> <nunits> (<four> <nal>)*)*
+            => panic | ok <n0> (<npkts> (<payload> <head> <res>)*)* <n1> (<npkts> (<payload> <head> <res>)*)*
+            the payloader struct is copied by value after <fork> calls; call k >= fork goes to copy <lane>;
+            observation = per copy, the calls it received over its life (those before the fork included)
+  c08.h264fork <fork> <n> <lane>* <n> <disable>* <calls> => <n> PayObs*   (in call order)
   c09.h264  <zeroAlloc> <avc> <n> <obytes>* => <n> (<res> <isAVC> <head> <tail0> <tail1> <auxPanic> <freshSame> <twinSame>)*
 -/
 import Driver.Common
 import Rtp.Model.H264Obs
+import Rtp.Model.H264Fork
 namespace Rtp.Kinds.H264
-open Rtp Rtp.Proto Rtp.Pred Rtp.Model.H264 Rtp.Model.H264.Obs Rtp.Spec.Rfc6184
+open Rtp Rtp.Proto Rtp.Pred Rtp.Model.H264 Rtp.Model.H264.Obs Rtp.Model.H264.Fork Rtp.Spec.Rfc6184
 
 /-! ### readers -/
 def rdRtCall : Rd C10.RtCall := do
@@ -170,6 +176,39 @@ def c09 : Handler :=
     (fun (z, a, ps) => c09Calls z a [] ps)
     (fun _ os => C09.histOk false os)
 
+/-! ### forked histories (the payloader struct copied by value mid-stream) -/
+
+def rdRtForkInput : Rd RtForkInput := do
+  let d ← Rd.bool; let a ← Rd.bool; let f ← Rd.nat
+  let cs ← Rd.list (do let l ← Rd.nat; let c ← rdRtCall; pure (l, c))
+  pure { disable := d, avc := a, fork := f, calls := cs }
+
+def rdRtForkObs : Rd RtForkObs := do
+  let t ← Rd.tok
+  match t with
+  | "panic" => pure { lane0 := { panicked := true, calls := [] }, lane1 := { panicked := true, calls := [] } }
+  | "ok" => do
+    let c0 ← Rd.list (Rd.list rdPkt); let c1 ← Rd.list (Rd.list rdPkt)
+    pure { lane0 := { panicked := false, calls := c0 }, lane1 := { panicked := false, calls := c1 } }
+  | _ => Rd.fail
+
+/-- each copy, looked at on its own, is an ordinary payloader: the predicate of `c10.rt` on the calls
+    it received over its life and the payloads it returned -/
+def rtForkOkR (i : RtForkInput) (o : RtForkObs) : Bool :=
+  rtOkR (i.view 0) o.lane0 && rtOkR (i.view 1) o.lane1
+
+def rtForkWF (i : RtForkInput) : Bool := rtWF (i.view 0) && rtWF (i.view 1)
+
+def rtFork : Handler :=
+  mkHandler rdRtForkInput rdRtForkObs rtForkModel rtForkOkR rtForkWF
+
+def c08Fork : Handler :=
+  mkHandler (do let f ← Rd.nat; let ls ← Rd.list Rd.nat; let fs ← Rd.list Rd.bool; let cs ← rdCalls
+                pure (f, ls, fs, cs)) rdPayObsList
+    (fun (f, ls, fs, cs) => c08ForkModel f ls fs cs)
+    (fun (_, _, _, cs) os => C08.histOk false cs os)
+
 def handlers : List (String × Handler) :=
-  [("c10.rt", rt), ("c10.dec", dec), ("c15.h264", c15), ("c08.h264", c08), ("c09.h264", c09)]
+  [("c10.rt", rt), ("c10.dec", dec), ("c15.h264", c15), ("c08.h264", c08), ("c09.h264", c09),
+   ("c10.rtfork", rtFork), ("c08.h264fork", c08Fork)]
 end Rtp.Kinds.H264
